@@ -354,6 +354,21 @@ func H_STD() {
 		}
 		c9 := 1<<53 + 1 + x - x
 		vx.Assert("STD", int(math.Max(float64(c9), 0)) == 1<<53, "2^53+1 rounds to 2^53")
+	case 12: // make with a size that comes from outside
+		n := vx.Int("n")
+		vx.Assume(n < 1<<16 || n > 1<<40) // (sizes in between are legal and would really be allocated by the native run)
+		panicked := false
+		func() {
+			defer func() {
+				if recover() != nil {
+					panicked = true
+				}
+			}()
+			s := make([]string, 0, n)
+			s = append(s, "a")
+			vx.Assert("STD", len(s) == 1 && s[0] == "a", "a slice made with a symbolic capacity works")
+		}()
+		vx.Assert("STD", panicked == (n < 0 || n > 1<<44), "make panics exactly for capacities out of range")
 	}
 	vx.Cover("std-done")
 }
